@@ -20,7 +20,7 @@ for l in lines:
         out.append(l)
 t = "\n".join(out).replace("(set-option :produce-models true)", "(set-option :produce-unsat-cores true)")
 open("/tmp/_core.smt2", "w").write(t)
-r = subprocess.run(["z3-new", "-T:60", "/tmp/_core.smt2"], capture_output=True, text=True).stdout
+r = subprocess.run((["z3", "-T:100", "smt.random_seed=15838", "sat.random_seed=15838", "/tmp/_core.smt2"] if "--old" in sys.argv else ["z3-new", "-T:60", "/tmp/_core.smt2"]), capture_output=True, text=True).stdout
 print(r[:400])
 idx = {int(c) for c in re.findall(r"\ba(\d+)\b", r)}
 n = 0
